@@ -1,4 +1,6 @@
-\* measured: 30,460 distinct states, 2,571,598 transitions, 2-3 min at load 40; every Nx action non-zero
+\* measured: 30,460 distinct states, 2,571,598 transitions without NxBatch2, 2-3 min at load 40; with NxBatch2
+\* the same 30,460 distinct states (4,297,246 transitions with BatchRGs = {"none", "ok", "le"}, fewer with the
+\* two variants below); every Nx action non-zero under -coverage 1 (NxBatch2 included)
 \* replica replacement whose source is the leader (embedded leader transfer first), a task
 \* row created mid-flight after its cutover, leader changes from outside, blocked tasks
 SPECIFICATION Spec
@@ -11,11 +13,12 @@ CONSTANTS
   TGs = {"ok", "stale"}
   Exts = {"le", "ld1", "ld2"}
   WfExtra = {"blocked"}
+  BatchRGs = {"none", "le"}
   MaxCE = 12
   MaxLE = 22
   MaxFver = 6
   LateReset = FALSE
 VIEW View
 INVARIANTS TypeOK C17_MetaValid C17_OneActive C17_Irreversible
-PROPERTIES C17_ProofCurrent C17_CutoverOnlyByCommit C17_FenceOwner C17_RejectedUnchanged C17_AbortOnlyBeforeCutover
+PROPERTIES C17_ProofCurrent C17_CutoverOnlyByCommit C17_FenceOwner C17_RejectedUnchanged C17_AbortOnlyBeforeCutover C17_BatchAsSequence
 CHECK_DEADLOCK FALSE
